@@ -223,6 +223,16 @@ class MediaRequestBase(RequestHandlerBase):
         # Update the sequenceNumber field in the MovieFragmentHeader
         # box
         moof.mfhd.sequence_number = seg_num
+        if seg_time is not None and mode == 'live':
+            # seg_num was estimated from the time and the average segment
+            # duration, which can give the same number to two segments of a
+            # track with varying durations. Count the segments instead
+            ref_duration_tc: int = timing.stream_reference.media_duration_using_timescale(
+                representation.timescale)
+            num_loops: int = int(
+                (origin_time + representation.start_time) // ref_duration_tc)
+            moof.mfhd.sequence_number = (
+                num_loops * representation.num_media_segments + mod_segment - 1)
         diff = None
         if seg_time is not None:
             diff = seg_time - tfdt.base_media_decode_time
